@@ -37,6 +37,39 @@ fn member(c: &CandidateValue<FieldValue>, p: &FieldValue) -> bool {
     }
 }
 
+/// the real `DynamicallyResolvedValue::resolve_fold_specific_field` for a fold of `count` elements
+fn fold_specific_candidate(operation: Operation<(), ()>, count: Option<usize>) -> CandidateValue<FieldValue> {
+    use std::collections::BTreeMap;
+    use std::num::NonZeroUsize;
+    use std::sync::Arc;
+    use trustfall_core::interpreter::InterpretedQuery;
+    use trustfall_core::ir::{
+        EdgeParameters, Eid, FoldSpecificField, FoldSpecificFieldKind, IRQuery, IRQueryComponent, IndexedQuery, Vid,
+    };
+    let vid = |n: usize| Vid::new(NonZeroUsize::new(n).unwrap());
+    let comp = Arc::new(IRQueryComponent {
+        root: vid(1),
+        vertices: BTreeMap::new(),
+        edges: BTreeMap::new(),
+        folds: BTreeMap::new(),
+        outputs: BTreeMap::new(),
+    });
+    let irq = IRQuery {
+        root_name: Arc::from("R"),
+        root_parameters: EdgeParameters::default(),
+        root_component: comp.clone(),
+        variables: BTreeMap::new(),
+    };
+    let iq = IndexedQuery { ir_query: irq, vids: BTreeMap::new(), eids: BTreeMap::new(), outputs: BTreeMap::new() };
+    let q = InterpretedQuery { indexed_query: Arc::new(iq), arguments: Arc::new(BTreeMap::new()) };
+    let field = FoldSpecificField {
+        fold_eid: Eid::new(NonZeroUsize::new(1).unwrap()),
+        fold_root_vid: vid(2),
+        kind: FoldSpecificFieldKind::Count,
+    };
+    h::fold_specific_candidate(q, &comp, &field, operation, CandidateValue::All, count)
+}
+
 #[test]
 fn c04_native() {
     let Ok(spec) = std::env::var("C04_CASES") else { return };
@@ -45,6 +78,15 @@ fn c04_native() {
         // tag `x`: the tag comes from an @optional scope that does not exist (every value passes)
         let nonexistent = parts[1].trim() == "x";
         let (op, tag, p) = (parts[0], if nonexistent { FieldValue::Null } else { dec(parts[1]) }, dec(parts[2]));
+        // `F:<Op>`: the fold-count resolver (`resolve_fold_specific_field`); the tag is the fold's element count
+        let (fold_specific, op) = match op.strip_prefix("F:") {
+            Some(rest) => (true, rest),
+            None => (false, op),
+        };
+        let tag = match (&tag, fold_specific && !nonexistent) {
+            (FieldValue::Int64(n), true) => FieldValue::Uint64(u64::try_from(*n).expect("a count")),
+            _ => tag,
+        };
         let (operation, passes): (Operation<(), ()>, bool) = match op {
             "Equals" => (Operation::Equals((), ()), f::equals(&p, &tag)),
             "NotEquals" => (Operation::NotEquals((), ()), !f::equals(&p, &tag)),
@@ -57,7 +99,14 @@ fn c04_native() {
         };
         let passes = passes || nonexistent;
         let tagv = if nonexistent { None } else { Some(tag) };
-        let cand = std::panic::catch_unwind(move || h::dynamic_candidate(&operation, CandidateValue::All, tagv));
+        let cand = std::panic::catch_unwind(move || {
+            if fold_specific {
+                let count = tagv.map(|t| usize::try_from(t.as_u64().expect("a count")).expect("fits"));
+                fold_specific_candidate(operation, count)
+            } else {
+                h::dynamic_candidate(&operation, CandidateValue::All, tagv)
+            }
+        });
         match cand {
             Ok(cand) => println!("C04CASE {i} passes={passes} member={}", member(&cand, &p)),
             Err(_) => println!("C04CASE {i} passes={passes} member=panic"),
